@@ -22,7 +22,12 @@ mpq_QSdata *SLOT[NSLOT];
 static char **TOK;
 static int NTOK, CUR;
 long LOG_MSGS = 0, LOG_BYTES = 0, LOG_PARTIAL = 0;
-static char LAST_LOG[512];
+FILE *PO = 0;
+static int SHOW_LOG = 0, CAPTURE = 0;
+static char CAP1[64], CAP2[64];
+static long CAPPOS1 = 0, CAPPOS2 = 0;
+static char *LOGBUF = 0;
+static size_t LOGLEN = 0, LOGCAP = 0;
 
 static void log_handler (const char *msg, void *data)
 {
@@ -30,7 +35,67 @@ static void log_handler (const char *msg, void *data)
 	(void) data;
 	LOG_MSGS++;
 	LOG_BYTES += (long) n;
-	strncpy (LAST_LOG, msg, sizeof (LAST_LOG) - 1);
+	if (SHOW_LOG)
+	{
+		/* remember the message (hex) to print it with the operation's answer */
+		size_t need = LOGLEN + 2 * n + 8, i;
+		if (need > LOGCAP) { LOGCAP = 2 * need; LOGBUF = (char *) realloc (LOGBUF, LOGCAP); }
+		LOGLEN += (size_t) sprintf (LOGBUF + LOGLEN, "\x01");
+		for (i = 0; i < n; i++) LOGLEN += (size_t) sprintf (LOGBUF + LOGLEN, "%02x", (unsigned char) msg[i]);
+		if (!n) LOGLEN += (size_t) sprintf (LOGBUF + LOGLEN, "-");
+	}
+}
+
+static long file_size (const char *path)
+{
+	FILE *f = fopen (path, "rb");
+	long n;
+	if (!f) return 0;
+	fseek (f, 0, SEEK_END);
+	n = ftell (f);
+	fclose (f);
+	return n;
+}
+
+/* after every operation: what reached the handler, and what reached fd 1 / fd 2 directly */
+static void report_io (void)
+{
+	static long last_msgs = 0;
+	if (SHOW_LOG)
+	{
+		char *q = LOGBUF;
+		printf ("logcount %ld\n", LOG_MSGS - last_msgs);
+		while (q && q < LOGBUF + LOGLEN)
+		{
+			char *e = strchr (q + 1, 1);
+			if (!e) e = LOGBUF + LOGLEN;
+			printf ("logmsg %.*s\n", (int) (e - q - 1), q + 1);
+			q = e;
+		}
+		LOGLEN = 0;
+		last_msgs = LOG_MSGS;
+	}
+	if (CAPTURE)
+	{
+		long n1, n2;
+		fflush (stdout);
+		fflush (stderr);
+		n1 = file_size (CAP1); n2 = file_size (CAP2);
+		if (n1 != CAPPOS1 || n2 != CAPPOS2)
+		{
+			FILE *f = fopen (n2 != CAPPOS2 ? CAP2 : CAP1, "rb");
+			int c, k = 0;
+			printf ("fdbytes %ld %ld ", n1 - CAPPOS1, n2 - CAPPOS2);
+			if (f)
+			{
+				fseek (f, n2 != CAPPOS2 ? CAPPOS2 : CAPPOS1, SEEK_SET);
+				while ((c = fgetc (f)) != EOF && k++ < 200) printf ("%02x", c);
+				fclose (f);
+			}
+			putchar ('\n');
+			CAPPOS1 = n1; CAPPOS2 = n2;
+		}
+	}
 }
 
 /* ------------------------------------------------------------------ tokens */
@@ -63,7 +128,7 @@ const char *tok (void)
 	if (CUR >= NTOK)
 	{
 		printf ("bad-op missing-token\n.\n");
-		fflush (stdout);
+		fflush (PO);
 		exit (3);
 	}
 	return TOK[CUR++];
@@ -83,7 +148,7 @@ void tok_q (mpq_t q)
 		if (mpq_set_str (q, t, 10))
 		{
 			printf ("bad-op bad-rational %s\n.\n", t);
-			fflush (stdout);
+			fflush (PO);
 			exit (3);
 		}
 		mpq_canonicalize (q);
@@ -102,11 +167,11 @@ mpq_t *tok_qarr (int *n)
 void put_q (mpq_t q)
 {
 	if (mpq_equal (q, mpq_ILL_MAXDOUBLE))
-		fputs ("inf", stdout);
+		fputs ("inf", PO);
 	else if (mpq_equal (q, mpq_ILL_MINDOUBLE))
-		fputs ("-inf", stdout);
+		fputs ("-inf", PO);
 	else
-		mpq_out_str (stdout, 10, q);
+		mpq_out_str (PO, 10, q);
 }
 void put_qarr (const char *key, mpq_t * a, int n)
 {
@@ -121,8 +186,8 @@ void put_qarr (const char *key, mpq_t * a, int n)
 }
 void put_hex (const char *s)
 {
-	if (!s) { fputs ("-", stdout); return; }
-	if (!*s) { fputs ("00", stdout); return; }
+	if (!s) { fputs ("-", PO); return; }
+	if (!*s) { fputs ("00", PO); return; }
 	for (; *s; s++)
 		printf ("%02x", (unsigned char) *s);
 }
@@ -132,7 +197,7 @@ mpq_QSdata *slot (void)
 	if (k < 0 || k >= NSLOT || !SLOT[k])
 	{
 		printf ("bad-op empty-slot %d\n.\n", k);
-		fflush (stdout);
+		fflush (PO);
 		exit (3);
 	}
 	return SLOT[k];
@@ -148,7 +213,7 @@ static mpq_QSdata *build_lp (void)
 	mpq_QSdata *p;
 	mpq_t a, b, c;
 	char nm[32];
-	if (strcmp (t, "lp")) { printf ("bad-op expected-lp\n.\n"); fflush (stdout); exit (3); }
+	if (strcmp (t, "lp")) { printf ("bad-op expected-lp\n.\n"); fflush (PO); exit (3); }
 	t = tok ();
 	p = mpq_QScreate_prob ("P", !strcmp (t, "max") ? QS_MAX : QS_MIN);
 	nc = tok_int ();
@@ -180,7 +245,7 @@ static mpq_QSdata *build_lp (void)
 		mpq_EGlpNumFreeArray (val);
 	}
 	mpq_clear (a); mpq_clear (b); mpq_clear (c);
-	if (rv) { printf ("bad-op build-failed\n.\n"); fflush (stdout); exit (3); }
+	if (rv) { printf ("bad-op build-failed\n.\n"); fflush (PO); exit (3); }
 	return p;
 }
 
@@ -425,9 +490,9 @@ static void cmd_solve (void)
 static void cmd_inf (void)
 {
 	printf ("pinf ");
-	mpq_out_str (stdout, 10, mpq_ILL_MAXDOUBLE);
+	mpq_out_str (PO, 10, mpq_ILL_MAXDOUBLE);
 	printf ("\nninf ");
-	mpq_out_str (stdout, 10, mpq_ILL_MINDOUBLE);
+	mpq_out_str (PO, 10, mpq_ILL_MINDOUBLE);
 	printf ("\n");
 }
 
@@ -437,8 +502,22 @@ int main (int argc, char **argv)
 	size_t cap = 0;
 	ssize_t n;
 	(void) argc; (void) argv;
+	PO = fdopen (dup (1), "w");
+	SHOW_LOG = getenv ("QSX_LOGMSG") != 0;
+	CAPTURE = getenv ("QSX_CAPTURE") != 0;
+	if (CAPTURE)
+	{
+		int f1, f2;
+		sprintf (CAP1, "cap1.%d", (int) getpid ());
+		sprintf (CAP2, "cap2.%d", (int) getpid ());
+		f1 = open (CAP1, O_WRONLY | O_CREAT | O_TRUNC, 0600);
+		f2 = open (CAP2, O_WRONLY | O_CREAT | O_TRUNC, 0600);
+		dup2 (f1, 1); dup2 (f2, 2);
+		close (f1); close (f2);
+	}
 	QSexactStart ();
-	QSlog_set_handler (log_handler, 0);
+	if (!getenv ("QSX_NOHANDLER"))
+		QSlog_set_handler (log_handler, 0);
 	while ((n = getline (&line, &cap, stdin)) > 0)
 	{
 		const char *c;
@@ -452,7 +531,7 @@ int main (int argc, char **argv)
 		{
 			probe = !strcmp (c, "probe");
 			/* run the command in a child so that a crash is a result, not the end of the run */
-			fflush (stdout);
+			fflush (PO);
 			pid = fork ();
 			if (pid)
 			{
@@ -461,7 +540,7 @@ int main (int argc, char **argv)
 				if (WIFSIGNALED (st)) printf ("signal %d\n", WTERMSIG (st));
 				else if (WEXITSTATUS (st)) printf ("childexit %d\n", WEXITSTATUS (st));
 				printf (".\n");
-				fflush (stdout);
+				fflush (PO);
 				continue;
 			}
 			forked = 1;
@@ -491,9 +570,10 @@ int main (int argc, char **argv)
 			int k = atoi (TOK[2]);
 			if (k >= 0 && k < NSLOT && SLOT[k]) qsx_dump_all (SLOT[k]);
 		}
-		if (forked) { fflush (stdout); _exit (0); }
+		if (forked) { report_io (); fflush (PO); _exit (0); }
+		report_io ();
 		printf (".\n");
-		fflush (stdout);
+		fflush (PO);
 	}
 	{
 		int k;
